@@ -194,9 +194,41 @@ def _make_sw(sw, coords, dens, refpot, orography=None):
   return sw.ShallowWaterEquations(coords=coords, physics_specs=specs, orography=orog, reference_potential=refpot)
 
 
+def replay_primitive_default(w):
+  """Native: implicit_terms of the real class against the documented operator assembled with numpy (uneven levels, linear reference profile)."""
+  jax = common.jx()
+  import jax.numpy as jnp
+  from dinosaur import primitive_equations as pe
+  rng = np.random.RandomState(3)
+  g = common.make_grid(3, 4, 10, 7, 'gauss', 'real')
+  for layers in (2, 4):
+    sig = common.sigma_levels('uneven', layers, 0)
+    eq = common.make_primitive(g, sig, 'linear', cls='dry')
+    mask = np.asarray(g.mask)
+    f = lambda n: jnp.asarray(np.where(mask, rng.randn(n, *g.modal_shape), 0.0))
+    st = pe.State(f(layers), f(layers), f(layers), f(1), {})
+    out = eq.implicit_terms(st)
+    lam = np.asarray(g.laplacian_eigenvalues)[None, None, :]
+    G = pe.get_geopotential_weights(sig, eq.physics_specs.R)
+    H = pe.get_temperature_implicit_weights(sig, eq.reference_temperature, eq.physics_specs.kappa)
+    T, D, P = (np.asarray(v) for v in (st.temperature_variation, st.divergence, st.log_surface_pressure))
+    want_div = -lam * (np.einsum('gh,hml->gml', G, T) + eq.physics_specs.R * eq.reference_temperature[:, None, None] * P)
+    want_T = -np.einsum('gh,hml->gml', H, D)
+    want_p = -np.einsum('h,hml->ml', sig.layer_thickness, D)[None]
+    errs = {'divergence': float(np.abs(np.asarray(out.divergence) - want_div).max()), 'temperature': float(np.abs(np.asarray(out.temperature_variation) - want_T).max()),
+            'log_surface_pressure': float(np.abs(np.asarray(out.log_surface_pressure) - want_p).max()), 'vorticity': float(np.abs(np.asarray(out.vorticity)).max())}
+    scale = max(1.0, float(np.abs(want_div).max()), float(np.abs(want_T).max()))
+    if max(errs.values()) > 1e-9 * scale:
+      return True, f'{layers} uneven layers: implicit_terms differs from the documented operator: {errs} (scale {scale:.3e})'
+  return False, 'implicit_terms equals the documented linear operator on the sampled states'
+
+
 def clauses(tier, seed):
-  from contracts import conformance_contracts, implicit_contracts, vertical_matrix_contracts
-  return _numeric_clauses(tier, seed) + implicit_contracts.clauses() + vertical_matrix_contracts.clauses() + [conformance_contracts.clauses()['C03']]
+  from contracts import column_contracts, conformance_contracts, implicit_contracts, vertical_matrix_contracts
+  col = column_contracts.clauses()['C03']
+  for c in col:
+    c.replay = replay_primitive_default
+  return _numeric_clauses(tier, seed) + implicit_contracts.clauses() + vertical_matrix_contracts.clauses() + col + [conformance_contracts.clauses()['C03']]
 
 
 def _numeric_clauses(tier, seed):
